@@ -259,6 +259,8 @@ class ParentTranslator:
             else:
                 return 'None'
         elif any(type(value) is t for t in literal_types):
+            if type(value) is float and (value != value or value in (float('inf'), float('-inf'))):
+                return "float('" + repr(value) + "')"     # inf, -inf and nan have no literal
             return pprint.pformat(value)
         elif (isinstance(value, types.ModuleType)
               and value in sys.modules.values()):
